@@ -127,6 +127,12 @@ def gen_cases(rng, tier):
             for k, s in enumerate(add):
                 if "arg" in s:
                     s["arg"] = f"z{k}." + (s["arg"].split(".")[-1] if "." in s["arg"] else "d")
+            if rng.random() < 0.25:
+                # a catalogue name already stored, given again with another length (a newer version): both entries live, each reported with its own figures
+                olds = [x["arg"] for x in srcs if "arg" in x and "/" not in x["arg"]]
+                if olds:
+                    tgt = add if rng.random() < 0.6 else srcs
+                    tgt.insert(rng.randint(0, len(tgt)), {"arg": "v2+/" + rng.choice(olds), "content": {"pat": "56", "len": rng.choice([0, 5000, 300, 2041])}})
             cases.append({"medium": "disk", "is_fd": rng.random() < 0.5, "verbose": rng.random() < 0.6, "sources": srcs, "add": add})
         else:
             c = c01.gen_case(rng)
@@ -144,7 +150,9 @@ def gen_cases(rng, tier):
         cases.append({"medium": "disk", "is_fd": is_fd, "verbose": True, "add": [e, e, e, f("z0.dat", 2500), f("z1.dat", 1)],
                       "sources": [f("a.dat", 300000), f("b.dat", 300000), f("c.dat", 300000), f("d.dat", 300000), f("e.dat", 10)]})
         cases.append({"medium": "disk", "is_fd": is_fd, "verbose": True, "add": [], "sources": [f("a.dat", 1), e, f("b.dat", 2041), e, f("c.dat", 0), e, f("d.dat", 4081), f("e.dat", 255)]})
-    return cases, {"random": n, "fixed": 8}
+    for is_fd in (True, False):
+        cases.append({"medium": "disk", "is_fd": is_fd, "verbose": True, "sources": [f("prog.bas", 11), f("v2+/prog.bas", 5000), f("other.dat", 300)], "add": [f("v3+/PROG.BAS", 2041), f("z.txt", 1)]})
+    return cases, {"random": n, "fixed": 10}
 
 
 def run_case(case, ctx):
